@@ -5,12 +5,19 @@
    property.  Its behaviours are also replayed on the real responders (S->C): `op` holds the last
    operation, `last` the delivery log the spec expects for it.                              *)
 EXTENDS Dispatch
-CONSTANTS MaxResp, MaxRecv, MaxOps, Rich
+CONSTANTS MaxResp, MaxRecv, MaxOps,
+          Mode      \* "base": small exhaustive alphabet; "rich": everything (simulation);
+                    \* "paths": three responders on up to three paths, one wildcard message matching several of
+                    \*          them, callbacks freeing / disabling responders of OTHER paths (sole or not)
+Rich == Mode = "rich"
+PathsMode == Mode \in {"paths", "paths+"}     \* "paths+": disable as well as free
 VARIABLES st, op, last, nrecv, nops, spent
 vars == <<st, op, last, nrecv, nops, spent>>
 
 A == <<47, 97>>          \* /a
 AB == <<47, 97, 98>>     \* /ab
+B == <<47, 98>>          \* /b
+Paths == IF Mode = "base" THEN {A, AB} ELSE {A, AB, B}
 I(n) == [t |-> "i", hi |-> 0, lo |-> n]
 AnySrc == [h |-> 0, p |-> 0]
 H1 == [h |-> 1, p |-> 0]          \* host 1, any port
@@ -27,15 +34,21 @@ Profiles == {[src |-> AnySrc, rport |-> 0, tmpl |-> <<>>]}
 \* (possibly itself) from inside the callback, and combinations
 Act(o, i) == [op |-> o, i |-> i]
 Beh(rk, acts) == [rk |-> rk, acts |-> acts]
-Behs == {Quiet, Beh(1, <<>>), Beh(0, <<Act("free", 1)>>), Beh(1, <<Act("disable", 2)>>)}
-        \cup (IF Rich THEN {Beh(2, <<>>), Beh(0, <<Act("enable", 1)>>), Beh(0, <<Act("free", 2)>>), Beh(0, <<Act("disable", 3)>>),
-                            Beh(1, <<Act("enable", 2), Act("free", 1)>>), Beh(2, <<Act("free", 3)>>)} ELSE {})
+Behs == IF PathsMode
+        THEN {Quiet} \cup {Beh(0, <<Act(o, i)>>) : o \in (IF Mode = "paths" THEN {"free"} ELSE {"free", "disable"}), i \in 1..3}
+        ELSE {Quiet, Beh(1, <<>>), Beh(0, <<Act("free", 1)>>), Beh(1, <<Act("disable", 2)>>)}
+             \cup (IF Rich THEN {Beh(2, <<>>), Beh(0, <<Act("enable", 1)>>), Beh(0, <<Act("free", 2)>>), Beh(0, <<Act("disable", 3)>>),
+                                 Beh(0, <<Act("free", 3)>>), Beh(0, <<Act("disable", 1)>>),
+                                 Beh(1, <<Act("enable", 2), Act("free", 1)>>), Beh(2, <<Act("free", 3)>>)} ELSE {})
 Creates == {[op |-> "create", kind |-> k, path |-> p, src |-> f.src, rport |-> f.rport, tmpl |-> f.tmpl, os |-> FALSE, beh |-> b] :
-               k \in {"exact", "matching"}, p \in {A, AB}, f \in Profiles, b \in Behs}
-\* message addresses: literal, wildcard forms, a prefix of /ab, a malformed pattern
-MAddrs == {A, AB, <<47, 42>>, <<47, 97, 63>>} \cup
-          (IF Rich THEN {<<47, 91, 97, 93>>, <<47, 123, 97, 44, 97, 98, 125>>, <<47, 91, 97>>} ELSE {})
-Msgs == {[tag |-> <<>>, a |-> a, args |-> ar] : a \in MAddrs, ar \in {<<>>, <<I(1)>>} \cup (IF Rich THEN {<<I(0), I(9)>>} ELSE {})}
+               k \in {"exact", "matching"}, p \in Paths, f \in Profiles, b \in Behs}
+\* message addresses: literal, wildcard forms (some match several registered paths: /* -> /a /b, /a* -> /a /ab,
+\* /?* -> all three), a prefix of /ab, a malformed pattern
+MAddrs == IF PathsMode THEN (IF Mode = "paths" THEN {<<47, 97, 42>>, <<47, 63, 42>>} ELSE {A, <<47, 42>>, <<47, 97, 42>>, <<47, 63, 42>>})
+          ELSE {A, AB, <<47, 42>>, <<47, 97, 63>>} \cup
+               (IF Rich THEN {<<47, 97, 42>>, <<47, 63, 42>>, <<47, 91, 97, 93>>, <<47, 123, 97, 44, 97, 98, 125>>, <<47, 91, 97>>} ELSE {})
+Msgs == {[tag |-> <<>>, a |-> a, args |-> ar] :
+            a \in MAddrs, ar \in (IF PathsMode THEN {<<>>} ELSE {<<>>, <<I(1)>>}) \cup (IF Rich THEN {<<I(0), I(9)>>} ELSE {})}
 
 Init == /\ st = [rs |-> <<>>, ord |-> <<>>] /\ op = [op |-> "init"] /\ last = <<>>
         /\ nrecv = 0 /\ nops = 0 /\ spent = {}
@@ -44,14 +57,14 @@ Do(e, s2) == /\ st' = s2 /\ op' = e /\ last' = <<>> /\ nops' = nops + 1 /\ nops 
 Create == /\ Len(st.rs) < MaxResp
           /\ \E e \in Creates : Do(e, OpCreate(st, e))
 R == 1..Len(st.rs)
-Enable == \E i \in R : ~st.rs[i].freed /\ ~st.rs[i].en /\ Do([op |-> "enable", i |-> i], OpEnable(st, i))
-Disable == \E i \in R : st.rs[i].en /\ Do([op |-> "disable", i |-> i], OpDisable(st, i))
-Free == \E i \in R : ~st.rs[i].freed /\ Do([op |-> "free", i |-> i], OpFree(st, i))
-OneShot == \E i \in R : ~st.rs[i].freed /\ ~st.rs[i].os /\ Do([op |-> "oneshot", i |-> i], OpOneShot(st, i))
-SetFunc == \E i \in R, b \in {Quiet, Beh(1, <<>>)} : ~st.rs[i].freed /\ st.rs[i].fn < 1
+Enable == ~PathsMode /\ \E i \in R : ~st.rs[i].freed /\ ~st.rs[i].en /\ Do([op |-> "enable", i |-> i], OpEnable(st, i))
+Disable == ~PathsMode /\ \E i \in R : st.rs[i].en /\ Do([op |-> "disable", i |-> i], OpDisable(st, i))
+Free == ~PathsMode /\ \E i \in R : ~st.rs[i].freed /\ Do([op |-> "free", i |-> i], OpFree(st, i))
+OneShot == ~PathsMode /\ \E i \in R : ~st.rs[i].freed /\ ~st.rs[i].os /\ Do([op |-> "oneshot", i |-> i], OpOneShot(st, i))
+SetFunc == ~PathsMode /\ \E i \in R, b \in {Quiet, Beh(1, <<>>)} : ~st.rs[i].freed /\ st.rs[i].fn < 1
               /\ Do([op |-> "setfunc", i |-> i, fn |-> st.rs[i].fn + 1, beh |-> b], OpSetFunc(st, i, st.rs[i].fn + 1, b))
-SetPerm == \E i \in R : st.rs[i].en /\ ~st.rs[i].perm /\ Do([op |-> "setperm", i |-> i, b |-> TRUE], OpSetPerm(st, i, TRUE))
-CmdPeriod == st.rs # <<>> /\ Do([op |-> "cmdperiod"], OpCmdPeriod(st))
+SetPerm == ~PathsMode /\ \E i \in R : st.rs[i].en /\ ~st.rs[i].perm /\ Do([op |-> "setperm", i |-> i, b |-> TRUE], OpSetPerm(st, i, TRUE))
+CmdPeriod == ~PathsMode /\ st.rs # <<>> /\ Do([op |-> "cmdperiod"], OpCmdPeriod(st))
 Recv == /\ nrecv < MaxRecv /\ nops < MaxOps /\ st.rs # <<>>
         /\ \E m \in Msgs, s \in Senders, via \in Vias :
               LET d == Deliver(st, <<m>>, 1, s, via, <<>>) IN
@@ -61,6 +74,7 @@ Recv == /\ nrecv < MaxRecv /\ nops < MaxOps /\ st.rs # <<>>
               /\ spent' = {i \in 1..Len(st.rs) : (i \in spent \/ (st.rs[i].os /\ \E k \in 1..Len(d.log) : d.log[k].r = i))
                                                   /\ ~d.st.rs[i].en}
         /\ nrecv' = nrecv + 1 /\ nops' = nops + 1
+\* in the "paths" modes histories are creations and deliveries only
 Next == Create \/ Enable \/ Disable \/ Free \/ OneShot \/ SetFunc \/ SetPerm \/ CmdPeriod \/ Recv
 Spec == Init /\ [][Next]_vars
 
@@ -96,6 +110,16 @@ SpecIsLegal ==
                                                src |-> last'[k].src, via |-> last'[k].via, tm |-> <<>>, d |-> 1]]
               j == Judge(st, <<m>>, op'.src, op'.via, lg) IN
           j.why = "ok" /\ j.st = st']_vars
+\* responders that no callback of this delivery touches and that accept the message fire exactly once -
+\* wherever they are registered (other paths of a wildcard message included)
+TouchedBy(s, log) == UNION {{s.rs[log[k].r].beh.acts[j].i : j \in 1..Len(s.rs[log[k].r].beh.acts)} : k \in 1..Len(log)}
+UntouchedFireOnce ==
+    [][op'.op = "recv" =>
+          \A i \in 1..Len(st.rs) :
+             (Accepts(st.rs[i], op'.m, op'.src, op'.via) /\ i \notin TouchedBy(st, last'))
+                => Cardinality({k \in 1..Len(last') : last'[k].r = i}) = 1]_vars
+\* some delivery really spans several paths with a callback acting on a responder of another path (vacuity guard
+\* for the "paths" configuration is the coverage of Recv plus this reachable-state witness, checked by hand)
 OrdConsistent == /\ \A k \in 1..Len(st.ord) : st.rs[st.ord[k]].en /\ ~st.rs[st.ord[k]].freed
                  /\ \A i \in 1..Len(st.rs) : st.rs[i].en => \E k \in 1..Len(st.ord) : st.ord[k] = i
                  /\ \A j, k \in 1..Len(st.ord) : j # k => st.ord[j] # st.ord[k]
